@@ -720,6 +720,24 @@ func c10HRender(s ReadOnlySpan) string {
 	}
 	var evs []string
 	for _, e := range s.Events() {
+		if e.Name == "exception" {
+			// RecordError(errors.New("<call id>")): rendered as the event of that call; the event must be COMPLETE
+			// (exception.type and exception.message, nothing else) — a torn event renders as 999999
+			id, typ := "999999", false
+			for _, a := range e.Attributes {
+				switch string(a.Key) {
+				case "exception.message":
+					id = a.Value.AsString()
+				case "exception.type":
+					typ = a.Value.AsString() == "*errors.errorString"
+				}
+			}
+			if !typ || len(e.Attributes) != 2 {
+				id = "999999"
+			}
+			evs = append(evs, id)
+			continue
+		}
 		evs = append(evs, e.Name)
 	}
 	j := func(xs []string, sep string) string {
@@ -829,9 +847,14 @@ func c10OneHist(seed uint64, gen string) string {
 					h.stamp("SAc" + is + ":" + strconv.Itoa(k))
 					span.SetAttributes(kvs...)
 					h.stamp("SAr" + is)
-				case x < 45:
+				case x < 38:
 					h.stamp("EVc" + is)
 					span.AddEvent(is)
+					h.stamp("EVr" + is)
+				case x < 45:
+					// RecordError is a mutator like AddEvent (formats under s.mu, then addEvent): same obligations
+					h.stamp("EVc" + is)
+					span.RecordError(errors.New(is))
 					h.stamp("EVr" + is)
 				case x < 53:
 					h.stamp("NMc" + is)
